@@ -46,13 +46,6 @@ Proof.
   destruct Hd as [Hd|[r Hd]]; [left; exact Hd|right]. unfold declared. rewrite Hd. reflexivity.
 Qed.
 
-Lemma strip_len : forall p s, len (strip p s) <= len s.
-Proof.
-  intros p s. destruct (strip_cases p s) as [E|E].
-  - rewrite E. lia.
-  - rewrite E at 2. rewrite len_app. pose proof (len_nonneg p). lia.
-Qed.
-
 (* the property's bound: declared n <= 4096 *)
 Theorem graph6_decode_total : forall s0, let s := strip hdr_graph6 s0 in
   (forall n, declared s = Some n -> n <= 4096) ->
